@@ -198,6 +198,37 @@ def decimal_run(case):
     return {"id": case["id"], "ev": evs}
 
 
+def refusal_cases(sd, n):
+    """operations that have to REFUSE, and have several variables to name in the refusal: a consumer whose two (or three) inputs are driven
+    by a producer that promises nothing about them (either call order), a dividend whose guarantee mentions several outputs of a divisor
+    that promises nothing about them, a divisor that reads several outputs of the quotient"""
+    out = []
+    for i in range(n):
+        rng = family.rng_for(sd, "C14ref", i)
+        k = rng.choice([2, 2, 3])
+        us = ["u", "v", "t"][:k]
+        top = {"inv": list(us), "outv": ["w"], "a": [({u: 1}, rng.randint(1, 3)) for u in us] if rng.random() < 0.6 else [({u: 1 for u in us}, 4)],
+               "g": [(dict({u: -1 for u in us}, w=1), 0)]}
+        drv = {"inv": ["i"], "outv": list(us), "a": [({"i": 1}, 5)] if rng.random() < 0.5 else [],
+               "g": [] if rng.random() < 0.6 else [({us[0]: 1, "i": -1}, 0)]}
+        div_top = {"inv": ["i"], "outv": us + ["o"], "a": [], "g": [(dict({u: 1 for u in us}, o=1), rng.randint(5, 10))]}
+        div = {"inv": ["k"], "outv": list(us), "a": [], "g": [] if rng.random() < 0.6 else [({us[-1]: 1, "k": -1}, 0)]}
+        out.append({"id": 400000 + i, "raw": [top, drv, div_top, div]})
+    return out
+
+
+def refusal_run(case):
+    top, drv, div_top, div = case["raw"]
+    evs = []
+    for x, y in ((top, drv), (drv, top)):
+        for simp, order in ((True, None), (False, None), (True, [4, 1])):
+            evs.append(ops.ev_compose(gen.mk_contract(x), gen.mk_contract(y), [], simp, order, ["itf"]))
+    for simp in (True, False):
+        evs.append(ops.ev_quotient(gen.mk_contract(div_top), gen.mk_contract(div), [], simp, None, ["itf"]))
+        evs.append(ops.ev_quotient(gen.mk_contract(top), gen.mk_contract(drv), [], simp, None, ["itf"]))
+    return {"id": case["id"], "ev": evs}
+
+
 def adversarial_lp(case):
     """constraints without any variable ('1 <= 2', or rows whose coefficients cancelled): legal inputs;
     only the exception class is judged here"""
@@ -257,6 +288,7 @@ def main(tier, replay=None):
         cases = mod.gen_cases("quick")[: n if q else 4 * n]
         absorb(mod.PROP, lpev.run(PROP, tier, cases, mod.run_case, "", owner=lambda ev: "none", rep=rep))
     absorb("decimals", opsprop.run(PROP, tier, decimal_cases(sd, 40 if q else 400), decimal_run, "", rep=rep))
+    absorb("refusals", opsprop.run(PROP, tier, refusal_cases(sd, 30 if q else 300), refusal_run, "", rep=rep))
     absorb("var-free", lpev.run(PROP, tier, adversarial_lp_cases(sd, 40 if q else 400), adversarial_lp, "", owner=lambda ev: "none", rep=rep))
     # (a') the parser on the spellings and malformations of C09, and the sessions of C13: exception class only
     pcases = c09.gen_cases("quick")[: 150 if q else 840]
@@ -313,7 +345,7 @@ def main(tier, replay=None):
         "traces_validated_against_impl": totals["traces"],
         "faults_enumerated": len(faults),
         "rule": "(a) reduced mix of the generators of C01-C04, C07, C08, C09 (spellings and malformed strings, including constants that divide by zero), "
-                "C11, C12, C15, C16 and the operation sessions of C13, plus adversarial elimination shapes (empty lists, single "
+                "C11, C12, C15, C16 and the operation sessions of C13, compositions and quotients that have to refuse with several variables to name, plus adversarial elimination shapes (empty lists, single "
                 "variable, no context for several eliminated variables, cancelling rows, degenerate contexts); the exception class of every call "
                 "is judged by the family's trace specification, and so is 'a failed call left its operands as they were'; (b) every single-field deletion / kind change of a contract dictionary (both "
                 "representations) and of a file entry, enumerated exhaustively by TLC from DictFaults.tla, through validate_contract_dict, "
